@@ -4,15 +4,15 @@ against the Lean model (parse, buildTopo, exportChunks + the cursor machine).
 Every call is first tried in a forked child, so a crash of the real code is an observation ("crash"), never a dead harness.
 Known findings (known_findings.json, status known) are reported with one KNOWN-FINDING line per class and do not fail
 the check: F34, F35 (round trip under the legacy export flags).  One input class is excluded behind a switch because the
-real code still crashes on it (reported, not yet fixed): totalwidth wrapping modulo 2^64 (VERIF_INCLUDE_SYN_WRAP=1)."""
+real code still aborts on it (reported, not yet fixed): x*y interleavings whose product of counts wraps to 0 modulo 2^64
+fail assert(nbs) (VERIF_INCLUDE_SYN_NBS=1)."""
 import os
 from eng_generic import DiffEngine
 from diffrun import compare_streams
 
 # model verdict -> (switch, description)
 KNOWN_CLASSES = {
-    "crash divzero": ("VERIF_INCLUDE_SYN_WRAP", "arities whose product is 0 modulo 2^64 + a type interleaving naming such a level: integer division by zero in hwloc_synthetic_process_indexes (topology-synthetic.c:304)"),
-    "crash assert": ("VERIF_INCLUDE_SYN_WRAP", "arities whose product wraps modulo 2^64: assert(nb) in hwloc_synthetic_process_indexes"),
+    "crash assert": ("VERIF_INCLUDE_SYN_NBS", "id=F68 x*y interleaving whose product of counts is 0 modulo 2^64 (e.g. indexes=1*65536:1*65536:1*65536:1*65536): assert(nbs) aborts in hwloc_synthetic_process_indexes (topology-synthetic.c:316)"),
 }
 KNOWN_TEXT = {
     "F34": "id=F34 hwloc_topology_export_synthetic(NO_EXTENDED_TYPES) writes caches as generic 'Cache:n', which hwloc_type_sscanf does not accept: the exported string cannot be re-imported (EINVAL)",
@@ -108,6 +108,6 @@ def run_engine(tier, seed):
     known_hits.clear()
     r = ENGINE.run_engine(tier, seed)
     r["known_hits"] = [(KNOWN_TEXT[k] + " (%d generated cases)" % v) if k in KNOWN_TEXT else
-                       "excluded class (set the switch to include): %s (%d generated cases)" % (k, v)
+                       "%s (excluded input class; %d generated cases)" % (k, v)
                        for k, v in sorted(known_hits.items())]
     return r
